@@ -81,7 +81,7 @@ def select_vectors(ck):
         if s2:
             subs.append(("Seq2 = {0, 1, 2, 3, 1000000}", "Seq2 = " + s2))
         cfg = tmp_cfg(ck, "gen/PoolSelect_Gen.cfg", "sel_%d_%s_%s_%s.cfg" % (n, re.sub(r"\W", "", a1), re.sub(r"\W", "", s1), re.sub(r"\W", "", s2)), subs)
-        res = ck.tlc_or_infra("PoolSelect_Gen", cfg, workers=2, timeout=1500, heap_gb=3,
+        res = ck.tlc_or_infra("PoolSelect_Gen", cfg, workers=2, timeout=1500, heap_gb=2,
                                name="selgen%d_%s_%s" % (n, re.sub(r"\W", "", a1), re.sub(r"\W", "", s1)))
         v = res.vecs()
         if not v:
@@ -137,8 +137,8 @@ def phase_mc(ck):
     out = {}
 
     def one(n):
-        res = ck.tlc_or_infra("Pool_MC", "mc/Pool_MC_%s.cfg" % n, workers=8 if ck.thorough else 4, timeout=2400 if ck.thorough else 600,
-                              name="mc_" + n, heap_gb=10 if ck.thorough else 4)
+        res = ck.tlc_or_infra("Pool_MC", "mc/Pool_MC_%s.cfg" % n, workers=6 if ck.thorough else 4, timeout=3000 if ck.thorough else 900,
+                              name="mc_" + n, heap_gb=4 if ck.thorough else 2)
         if not res.completed:
             raise Infra("model checking of %s did not complete" % n)
         return n, {"distinct": res.distinct, "generated": res.generated, "wall_s": round(res.wall, 1)}
@@ -183,7 +183,7 @@ def gen_scripts(ck):
     def one(j):
         src, cfg, subs, args, nc, nw, st = j
         c = tmp_cfg(ck, cfg, "gen_%s.cfg" % src, subs) if subs else cfg
-        res = ck.tlc_or_infra("Pool_Gen", c, workers=1 if args else 4, args=args, timeout=900, name="gen_" + src, heap_gb=4)
+        res = ck.tlc_or_infra("Pool_Gen", c, workers=1 if args else 4, args=args, timeout=900, name="gen_" + src, heap_gb=2)
         if args:
             return scripts_from(res, "VEC", src, nc, nw, st, limit=nsim)
         return scripts_from(res, "CEX", src, nc, nw, st, per_class=(40 if ck.thorough else 5))
@@ -335,16 +335,26 @@ def trace_key(rj):
         if not c["done"] and c["kind"] != "bmc" and c["sel"] is not None and t > c["sel"] + c["tmo"] + SLACK_MS:
             # a gap in the recording (the whole process was not scheduled) or lateness that the re-armed timer
             # does not explain is a scheduling effect, not the code
-            prev_t = seg[rj["accepted"] - 1].get("t", t) if rj["accepted"] > 0 else t
-            explained = c["stale"] > 0 and t <= c["last"] + c["tmo"] + SLACK_MS and t - prev_t < SLACK_MS // 2
-            k = "C13:timer-rearmed-by-stale-head" if explained else "C13:wait-outlives-deadline"
+            ts = [x["t"] for x in seg[1:rj["accepted"] + 1] if "t" in x]
+
+            def gaps(a, b):   # time in [a, b] during which nothing at all was recorded (>40 ms of silence)
+                return sum(t2 - t1 for t1, t2 in zip(ts, ts[1:]) if t1 >= a and t2 <= b and t2 - t1 > 40)
+            stalled = gaps(c["sel"], t)
+            if t - c["sel"] - stalled <= c["tmo"] + SLACK_MS:
+                k = "C13:wait-outlives-deadline"       # explained by the stall alone
+            elif c["stale"] > 0 and t - c["last"] - gaps(c["last"], t) <= c["tmo"] + SLACK_MS:
+                k = "C13:timer-rearmed-by-stale-head"  # late for the original deadline, on time for the re-armed timer
+            else:
+                k = "C13:wait-outlives-deadline"
             return k, "caller %d (timeout %d ms, entered its select at %d ms) is still inside the call at %d ms; %d stale head(s) received" % (
                 i, c["tmo"], c["sel"], t, c["stale"])
     return "C13:trace:" + str(e.get("k")), "event is not a step of Pool: " + json.dumps(e)[:300]
 
 
-def validate_body(ck, body, tag):
-    """Shard a list of events (whole segments) over TLC processes; report rejected segments. Returns (segments, number rejected)."""
+def validate_body(ck, body, tag, deferred=None):
+    """Shard a list of events (whole segments) over TLC processes; report rejected segments. Returns (segments, number rejected).
+    Rejections whose key is an unclassified hang are appended to `deferred` (if given) instead of being reported: the
+    watchdog's judgment is time-dependent and must show up again."""
     segs, cur = [], None
     for e in body:
         if e["k"] == "Reset":
@@ -361,7 +371,7 @@ def validate_body(ck, body, tag):
     def val(i):
         p = os.path.join(ck.work, "trace_%s_%02d.ndjson" % (tag, i))
         vlib.write_ndjson(p, shards[i] + [{"k": "End", "events": len(shards[i])}])
-        return ck.validate_segments("Pool_Trace", "trace/Pool_Trace.cfg", p, timeout=1500, name="trace_%s_%02d" % (tag, i))
+        return ck.validate_segments("Pool_Trace", "trace/Pool_Trace.cfg", p, timeout=1500, name="trace_%s_%02d" % (tag, i), heap_gb=2)
     nrej = 0
     lateness = []
     for res, rejected in vlib.parallel(val, range(nsh), n=8):
@@ -371,6 +381,9 @@ def validate_body(ck, body, tag):
             prof = rj["segment"][0].get("profile", "?")
             if key == "C13:wait-outlives-deadline":
                 lateness.append((prof, what))
+                continue
+            if deferred is not None and key.startswith("C13:hang:"):
+                deferred.append((key, prof, what, rj))
                 continue
             ck.report(key, "recorded execution (%s, segment of %d events, %d accepted): %s" % (prof, rj["length"], rj["accepted"], what),
                       {"kind": "trace", "segment": rj["segment"][:rj["accepted"] + 1], "rejected_index": rj["accepted"]})
@@ -401,7 +414,22 @@ def phase_trace(ck):
     if not lines or lines[-1].get("k") != "End":
         raise Infra("stress driver died")
     body = lines[:-1]
-    segs, nrej = validate_body(ck, body, "stress")
+    deferred = []
+    segs, nrej = validate_body(ck, body, "stress", deferred)
+    if deferred:
+        # record once more with the same seed: an unclassified hang is reported only if the same call sites hang again
+        tp2 = os.path.join(ck.work, "stress_again.ndjson")
+        gotest(ck, "TestVerifStress", {"VERIF_OUT": tp2, "VERIF_SEED": str(ck.seed), "VERIF_SEGMENTS": str(nseg), "VERIF_PAR": "6"}, timeout=1500)
+        again = []
+        validate_body(ck, [json.loads(l) for l in open(tp2)][:-1], "stress_again", again)
+        keys2 = {k for k, _, _, _ in again}
+        for key, prof, what, rj in deferred:
+            if key in keys2:
+                ck.report(key, "recorded execution (%s, segment of %d events, %d accepted; seen again on a second recording): %s" % (
+                    prof, rj["length"], rj["accepted"], what),
+                    {"kind": "trace", "segment": rj["segment"][:rj["accepted"] + 1], "rejected_index": rj["accepted"]})
+            else:
+                ck.notes.append("an unclassified hang of the free-running recorder did not show up again and was not reported: " + what[:300])
     by_profile = {}
     for sg in segs:
         p = sg[0].get("profile", "?")
